@@ -15,7 +15,7 @@ PLAN = dict(
           "four operators and through best_match in both argument orders and compared with a "
           "reference transliteration of pkg_install's dewey rule. Non-trivial = A != B textually "
           "and the reference decides after the first component; distinct = distinct (A,B) by "
-          "64-bit fingerprint."),
+          "64-bit fingerprint. Later additions: every bound B is also used in ranges whose other end is a near neighbour of B (B.0, Brc1, Bnb1, B.1, B without its last token; both orders, four operator pairs), observed at the ranges' own ends and against A; a length sweep (versions of exactly k components for every k <= 70 and around the powers of two up to 2048, every kind of token last); pairs of versions that collide under common fast hash functions (FNV-1a, djb2, sdbm, 31*h, truncated SipHash), found by a birthday search at run time."),
     exhaustive={"quick": "SMALL(2): all ordered pairs of the 157 strings of <=2 tokens",
                 "thorough": "SMALL(3): all ordered pairs of the 1885 strings of <=3 tokens"},
     assumptions=[
